@@ -603,6 +603,30 @@ class Exec:
         for (pn, rel) in auto:
             ev_ = entry_vals[pn]
             self.hyp(self.env[pn] >= ev_ if rel == '>=' else self.env[pn] <= ev_)
+        # range loops: the hidden index never exceeds the (loop-invariant) bound minus one
+        for ph in phis:
+            if ph.get('comment') != 'rangeindex':
+                continue
+            nxt = [x for x in blk['instrs'] if x['op'] == 'BinOp' and x['tok'] == '+' and x['x'].get('name') == ph['name']
+                   and x['y']['k'] == 'const' and str(x['y'].get('v')) == '1']
+            if not nxt:
+                continue
+            cmpi = [x for x in blk['instrs'] if x['op'] == 'BinOp' and x['tok'] == '<' and x['x'].get('name') == nxt[0]['name']]
+            if not cmpi:
+                continue
+            bo = cmpi[0]['y']
+            if bo['k'] == 'reg':
+                d = self.find_def(bo['name'])
+                inloop = any(bo['name'] == x.get('name') for b2 in L['body'] for x in self.fn['blocks'][b2]['instrs'])
+                if inloop:
+                    continue
+            try:
+                bound = self.term(bo)
+            except OutOfSubset:
+                continue
+            ev_ = entry_vals[ph['name']]
+            if z3.is_int_value(ev_) and ev_.as_long() == -1:
+                self.hyp(z3.Implies(bound >= 0, self.env[ph['name']] <= bound - 1))
         # 3. assume invariants
         env_head = self.spec_env(names)
         st.env_head = env_head
@@ -667,6 +691,7 @@ class Exec:
                 env_step.setdefault(k_, v_)
             evS = SpecEval(V, self.pkg, env_step, self.heap, old=self.top_entry_heap(), loop_old=(st.entry_heap, st.env_entry))
             evS.head = (st.head_heap, st.env_head)
+            evS.latch = (self.heap, env_l)
             for k, (lab, ast, txt) in enumerate(st.lc['step']):
                 try:
                     self.oblige('step', evS.boolean(ast), label='L%d.%s' % (st.ordinal, lab or k), text=txt)
